@@ -17,6 +17,7 @@ for name in $NAMES; do
   expect=VIOLATED
   case $name in benign_*) expect=HELD;; esac
   grep -q '"disposition"' $d/meta.json && expect=HELD
+  grep -q '"expected": "INCONCLUSIVE"' $d/meta.json && expect=INCONCLUSIVE
   wt=/tmp/seedwt_$name; scr=/tmp/seedout_$name
   git -C /repo worktree remove --force $wt >/dev/null 2>&1; rm -rf $wt $scr; mkdir -p $scr
   git -C /repo worktree add -q --detach $wt HEAD || { echo "$name: worktree failed"; bad=1; continue; }
